@@ -98,6 +98,9 @@ func (h *harness) streamHistory(n, maxSteps int) {
 		exists := false
 		var curText string
 		var curNs, curSize int64
+		prevText := ""      // the content the previous reload looked at
+		ownPending := false // the latest change of the file is this object's own SetValues (nothing external since)
+		ownWhat := ""
 		sec := base + int64(h.rng.Intn(1000))*10
 		nsInSec := int64(0)
 		haveInstant := false
@@ -188,6 +191,7 @@ func (h *harness) streamHistory(n, maxSteps int) {
 				isDir = false
 			}
 			away = nil
+			ownPending = false
 			writeFile(path, text)
 			mode := "natural"
 			if !h.rng.Chance(15) {
@@ -450,7 +454,24 @@ func (h *harness) streamHistory(n, maxSteps int) {
 						dead = true
 					}
 				}
+				if err == nil && !dead && ver == prevVer && ownPending && curText != prevText {
+					// the object's own write-back changed the content but left (mtime, size) as the previous reload
+					// saw them (the file system's clock had moved on before the write: a replacement file created
+					// by the write carries a later time): written values must read back after a reload
+					for k, v := range m {
+						if got := ce.c.GetValue(k); got != strings.TrimSpace(v) {
+							h.rep.Fail("property", "setvalues:written-file-not-loaded",
+								fmt.Sprintf("SetValues rewrote the file (%s), a reload ran, key %q reads %q, the file says %q: the rewritten file carries the stamp the previous reload saw (mtime %d ns, %d bytes)",
+									ownWhat, k, got, strings.TrimSpace(v), curNs, curSize),
+								map[string]interface{}{"history": hs})
+							dead = true
+							break
+						}
+					}
+				}
+				ownPending = false
 				prevVer = ver
+				prevText = curText
 				prevMissing = false
 				expectReset = true // a stamp of an existing file is remembered now
 			} else {
@@ -487,6 +508,7 @@ func (h *harness) streamHistory(n, maxSteps int) {
 				// stamp (mtime, size) the configuration had seen before the file went away
 				prevVer = [2]int64{-1, -1}
 				prevMissing = true
+				ownPending = false
 			}
 			prevRaced = racePre != nil
 			// every registered observer hears exactly what the reference observer hears; a replaced one nothing
@@ -624,6 +646,7 @@ func (h *harness) streamHistory(n, maxSteps int) {
 				return
 			}
 			away = &fileVerT{curText, curNs, curSize}
+			ownPending = false
 			awayRenamed = !isDir && h.rng.Chance(50)
 			if isDir {
 				away = nil
@@ -703,9 +726,23 @@ func (h *harness) streamHistory(n, maxSteps int) {
 					continue
 				}
 				kvs[k] = h.rng.PickStr(setValues)
+				if cv, ok := before[k]; ok && h.rng.Chance(55) {
+					// the net effect keeps the size of the file: a value exactly as long as the one it replaces
+					if nv := sameKindValue(h.rng, cv, len(cv)); nv != "" && wfVal(cv) {
+						kvs[k] = nv
+						h.rep.Count("history:setvalues-same-length-value")
+					}
+				}
 			}
 			if len(kvs) == 0 {
 				return
+			}
+			// a file stamped "just now" by somebody else: wait until the file system's clock has moved past that
+			// stamp (otherwise a same-size rewrite within one tick is the known finding reload:same-stamp-edit)
+			if curNs > time.Now().Add(-10*time.Second).UnixNano() && curNs < time.Now().Add(10*time.Second).UnixNano() {
+				if !waitFsClockPast(dir, curNs) {
+					return
+				}
 			}
 			old := curText
 			arg := map[string]string{}
@@ -744,8 +781,14 @@ func (h *harness) streamHistory(n, maxSteps int) {
 				h.rep.Fail("correspondence", "writeback:model", "write-back model and implementation disagree (SetValues inside a history)",
 					map[string]interface{}{"history": hs, "file_before": old, "kvs": kvs, "file_after": newText, "model": vh.Clip(got, 1200)})
 			}})
+			preNs, preSize := curNs, curSize
 			curText = newText
 			curNs, curSize = statNs(path)
+			ownPending = true
+			ownWhat = fmt.Sprintf("before the write: mtime %d ns, %d bytes; after: mtime %d ns, %d bytes", preNs, preSize, curNs, curSize)
+			if curSize == preSize && newText != old {
+				h.rep.Count("history:setvalues-size-kept")
+			}
 			logOp("file-after-setvalues", "text", newText, "mtime_ns", curNs)
 			add(check{line: fmt.Sprintf("E %d %s", curNs, encStr(newText)), want: "ok"})
 		}
@@ -776,6 +819,7 @@ func (h *harness) streamHistory(n, maxSteps int) {
 					os.RemoveAll(path)
 					isDir = false
 				}
+				ownPending = false
 				writeFile(path, text)
 				sec += int64(1 + h.rng.Intn(3))
 				tm := time.Unix(sec, nsInSec)
@@ -800,6 +844,7 @@ func (h *harness) streamHistory(n, maxSteps int) {
 			case x < 38 && exists && !isDir:
 				// truncated to nothing (and usually rewritten by a later edit)
 				os.Truncate(path, 0)
+				ownPending = false
 				curText = ""
 				curNs, curSize = statNs(path)
 				logOp("truncate", "mtime_ns", curNs)
@@ -809,6 +854,7 @@ func (h *harness) streamHistory(n, maxSteps int) {
 				// a directory in place of the file: Stat succeeds, reading fails
 				os.RemoveAll(path)
 				os.Mkdir(path, 0o755)
+				ownPending = false
 				isDir, exists, away = true, true, nil
 				curNs, curSize = statNs(path)
 				if curSize < 1 {
